@@ -95,7 +95,9 @@ func (w *World) RunCase(n int, q Q, r *rand.Rand, bigLen int) Line {
 	lines = append(lines, covLines(q.Cov, r)...)
 	ckLines, sent := cookieLayout(q.Ck, px.P.CookieName, sealed, r)
 	lines = append(lines, ckLines...)
-	lines = append(lines, HdrLine{"User-Agent", "fw-raw/1"}, HdrLine{"X-Custom", "1"})
+	// every case carries its own tag: a request that arrives late from an earlier case is never attributed to this one
+	tag := fmt.Sprintf("%d-%08x", n, r.Uint32())
+	lines = append(lines, HdrLine{"User-Agent", "fw-raw/1"}, HdrLine{"X-Custom", "1"}, HdrLine{"X-Fw-Case", tag})
 	if r.Intn(4) == 0 {
 		// forged signature headers are the proxy's to overwrite
 		lines = append(lines, HdrLine{"Sso-Signature", "Zm9yZ2Vk"}, HdrLine{"kid", "forged"}, HdrLine{"Gap-Signature", "sha256 Zm9yZ2Vk"})
@@ -119,7 +121,16 @@ func (w *World) RunCase(n int, q Q, r *rand.Rand, bigLen int) Line {
 		to = 30 * time.Second
 	}
 	status, _, err := rawDo(px.Addr, raw, m, to)
-	got := w.Back.Got()
+	all := w.Back.Got()
+	got := all[:0]
+	for _, g := range all {
+		for _, v := range valuesOf(g.Header, "X-Fw-Case") {
+			if v == tag {
+				got = append(got, g)
+				break
+			}
+		}
+	}
 
 	conc := &Conc{Host: host, Method: m, Target: tgt, Lines: append(lines, HdrLine{"Connection", conn}), Cookies: sent, BodyLen: len(b), Chunks: chunks, Status: status,
 		Session: map[string]interface{}{"user": sess.User, "email": sess.Email, "groups": sess.Groups, "access_token": sess.AccessToken}}
